@@ -740,10 +740,20 @@ pub fn ev_prune<K: Kmer + Send + Sync>(sink: &Sink, r: &mut Rng, inp: &GInput, r
             all.push(row.k.clone());
         }
     }
+    // the library's own two-call flow: filter_kmers(report_all_kmers = true) hands back the table AND the list of every
+    // k-mer it saw; remove_censored_exts_sharded searches that list as returned
+    let flow_thr = if inp.thr > 1 { inp.thr } else { 2 };
     let desc = json!({"op":"prune","K":inp.k,"st":inp.stranded,"reads":inp.reads,"fam":inp.fam,
-        "before":rows_json(&keep),"all":all});
+        "before":rows_json(&keep),"all":all,"flow_thr":flow_thr});
     let case = sink.begin_case(&desc);
     let res = guard(|| {
+        let seqs: Vec<(DnaBytes, Exts, u32)> = inp.reads.iter().enumerate().map(|(i, r)| (DnaBytes(r.clone()), Exts::empty(), i as u32)).collect();
+        let (map, seen): (BoomHashMap2<K, Exts, u16>, Vec<K>) =
+            filter::filter_kmers(&seqs, &Box::new(CountFilter::new(flow_thr)), inp.stranded, true, 4);
+        let mut tf: Vec<(K, (Exts, D))> = map.iter().map(|(k, e, d)| (*k, (*e, vec![*d as u32]))).collect();
+        tf.sort_by_key(|x| x.0);
+        filter::remove_censored_exts_sharded(inp.stranded, &mut tf, &seen);
+        let flow = untyped_rows(&tf);
         let mut t1 = typed_rows::<K>(&keep);
         t1.sort_by_key(|x| x.0);
         let mut t2 = t1.clone();
@@ -751,20 +761,22 @@ pub fn ev_prune<K: Kmer + Send + Sync>(sink: &Sink, r: &mut Rng, inp: &GInput, r
         let mut allk: Vec<K> = all.iter().map(|x| K::from_bytes(x)).collect();
         allk.sort();
         filter::remove_censored_exts_sharded(inp.stranded, &mut t2, &allk);
-        (untyped_rows(&t1), untyped_rows(&t2))
+        (untyped_rows(&t1), untyped_rows(&t2), flow)
     });
     sink.end_case();
     let mut e = desc;
     e["case"] = json!(case);
     match res {
-        Ok((a, b)) => {
+        Ok((a, b, fl)) => {
             e["plain"] = rows_json(&a);
             e["sharded"] = rows_json(&b);
+            e["flow"] = rows_json(&fl);
             e["panic"] = json!("");
         }
         Err(m) => {
             e["plain"] = json!([]);
             e["sharded"] = json!([]);
+            e["flow"] = json!([]);
             e["panic"] = json!(m);
         }
     }
